@@ -230,6 +230,10 @@ func StrictIntRightBitshift[T StrictInt](left T, right Value) (T, Value) {
 				return left >> rSmall, Undefined
 			}
 
+			if left < 0 && r.ToGoBigInt().Sign() > 0 {
+				// every bit shifted out of a negative number: the sign fills the result
+				return ^T(0), Undefined
+			}
 			return 0, Undefined
 		default:
 			return 0, Ref(NewBitshiftOperandError(right))
@@ -307,6 +311,10 @@ func StrictIntLeftBitshift[T StrictInt](left T, right Value) (T, Value) {
 				return left << rSmall, Undefined
 			}
 
+			if left < 0 && r.ToGoBigInt().Sign() < 0 {
+				// a negative count shifts right: the sign fills the result
+				return ^T(0), Undefined
+			}
 			return 0, Undefined
 		default:
 			return 0, Ref(NewBitshiftOperandError(right))
